@@ -37,28 +37,52 @@ LEAN_MODULES = ["MpfVerif.Props.C04"]
 PROPS_FILE = "MpfVerif/Props/C04.lean"
 GEN = []
 MANIFEST = {
-    "text": "PARTIAL proof. Proved in Lean about the ball ledger (Model/BallLedger.lean: the bookkeeping protocol of MPF's ball devices at the granularity of its own accounting events - plan, ejectStart, ballLeft, confirm/lateConfirm, ejectFailedReturn/Stuck, enterExpected/Unexpected, pfCapture, lostEjected, lostIdle, incomingTimeout, newBallFound, broken - with the code's guards): for every interleaving of these transitions the available_balls claims sum to the number of balls known, device balls + playfield balls + balls in flight sum to the number known, 0 <= balls <= counted <= capacity for every device, and for every configuration in which every device target has a single source (decidable predicate Cfg.singleSource) no reachable state enables a coil firing towards a device whose room is already taken (invariant heading = incoming + [source mid-fire] carried through all 23 transitions); with two sources the guard passes twice (witness theorem = known finding D16). NOT proved: that the ~2000 lines of asyncio coroutines only perform these transitions. That is tied by a refinement monitor on every run: the real devices run inside a physical-world simulator (slots, switches through process_switch, coil pulses intercepted, transit/settle times, eject outcomes ok/stuck/fallback/late/astray), every observed step must be an enabled ledger transition with the same resulting counts, and at every rest point the real counts are compared with the simulator's physical truth.",
-    "note": "Outside the model (named runtime behaviour): asyncio task interleaving inside one device, switch debounce and activity classification in switch_counter._run, timer expiry (the monitor is told which timeout fired), real switch bounce, jam switches, entrance-switch counters, mechanical/player-controlled ejects, ball search, confirm_eject_type switch/event. Topologies: trough->plunger->playfield + lock->playfield; trough+lock->plunger (two sources); chain trough->launcher->{playfield|lock} with two-hop requests to the non-playfield target (the launcher's diverter follows the target of MPF's own ejecting_ball event, as a diverter coil wired to that event would - the only place where the world listens to MPF). Trusted: Lean kernel + standard axioms; the hand-written ledger; harness/common/ballworld.py (world simulator + trace abstraction). Known findings, each with a deterministic witness history that runs on every check: two sources, one free slot (D16); ball falling back after eject_timeout; ball arriving after ball_missing_timeout; ball entering a device during its own eject taken for the returning ball; playfield switch hit by another ball credited to an eject whose ball falls back; BallDevice.balls reading -1 between end_eject and the state change.",
+    "text": "PARTIAL proof. Proved in Lean about the ball ledger (Model/BallLedger.lean: the bookkeeping protocol of MPF's ball devices at the granularity of its own accounting events - plan, ejectStart, ballLeft, confirm/lateConfirm, ejectFailedReturn/Stuck, enterExpected/Unexpected, pfCapture, lostEjected, lostIdle, incomingTimeout, newBallFound, broken - with the code's guards): for every interleaving of these transitions the available_balls claims sum to the number of balls known, device balls + playfield balls + balls in flight sum to the number known, 0 <= balls <= counted <= capacity for every device, and for every configuration in which every device target has a single source (decidable predicate Cfg.singleSource) no reachable state enables a coil firing towards a device whose room is already taken (invariant heading = incoming + [source mid-fire] carried through all 36 transitions); with two sources the guard passes twice (witness theorem = known finding D16). Session 3: the ledger also has the transitions of a mechanical / player-controlled eject (manualLeft = the player lets go of a ball resting in an idle device: the claim MOVES to the target, an eject is tracked; confirmManual / manualTimeout / manualReturn), of the 'ball may have skipped the mechanical device' logic (skipStart / skipConfirm / skipConfirmIdle / skipFail) and of confirm_eject_type switch|event (extConfirm: the playfield keeps the incoming ball; pfArrivedStale / pfArrivedFrom), all three conservation/bounds/readiness theorems are proved over the extended step function; and a separate model of the entrance-switch counter (EC: hit inside/outside the ignore window, full time-out, switch opening, own eject) with theorems count = entries - ejects, 0 <= count <= ball_capacity, full detection by the full time-out, and a witness theorem for the short-rest drop. NOT proved: that the ~2000 lines of asyncio coroutines only perform these transitions. That is tied by a refinement monitor on every run: the real devices run inside a physical-world simulator (slots, switches through process_switch, coil pulses intercepted, transit/settle times, eject outcomes ok/stuck/fallback/late/astray), every observed step must be an enabled ledger transition with the same resulting counts, and at every rest point the real counts are compared with the simulator's physical truth.",
+    "note": "Outside the model (named runtime behaviour): asyncio task interleaving inside one device, switch debounce and activity classification in switch_counter._run, timer expiry (the monitor is told which timeout fired), real switch bounce, jam switches, ball search, VUK chains of more than two hops, two playfields, confirm_eject_type switch/event towards a DEVICE target (only plunger -> playfield is driven), an entrance-counted TROUGH (only the lock is), multiple entrance switches. Topologies (session 3 flavours on top of the three below: lock counted by entrance_switch + ball_capacity with/without entrance_switch_full_timeout and ignore window; plunger mechanical_eject without coil, or coil + mechanical + player_controlled_eject_event; plunger confirm_eject_type switch|event with the signal on time / late / never / spurious): trough->plunger->playfield + lock->playfield; trough+lock->plunger (two sources); chain trough->launcher->{playfield|lock} with two-hop requests to the non-playfield target (the launcher's diverter follows the target of MPF's own ejecting_ball event, as a diverter coil wired to that event would - the only place where the world listens to MPF). Trusted: Lean kernel + standard axioms; the hand-written ledger; harness/common/ballworld.py (world simulator + trace abstraction). Known findings, each with a deterministic witness history that runs on every check: two sources, one free slot (D16); ball falling back after eject_timeout; ball arriving after ball_missing_timeout; ball entering a device during its own eject taken for the returning ball; playfield switch hit by another ball credited to an eject whose ball falls back; BallDevice.balls reading -1 between end_eject and the state change; counted_balls = capacity + 1 while an entrance-counted device's own eject is unconfirmed and a ball enters; the ball that fills an entrance-counted device with full time-out resting on the switch shorter than the time-out (device ejecting below it) is never counted; two same-instant races of the skip logic of mechanical devices (drain counted at the instant the skip wait times out: ball credited twice; ball counted in the plunger at the instant the trough's confirm window closes: wait_for_ball cancelled half way, later a crash). Also a known finding of C05 reached by a new route (launcher not woken after the lock's incoming ball timed out, confirm switch/event). Repaired defects found by the session-3 stream (each has a directed case that is red on the unrepaired tree): mechanical eject during idle duplicated the available ball (336f23e); the same eject with the ball rolling back hung the device for ever (3f8a4e5); a ball skipping an idle mechanical device left a phantom available ball (6b7bafe); (an entrance-counted device drops the ball that fills it when the entrance switch opens before entrance_switch_full_timeout - by design, a short hit is a bounce: known finding with witness).",
     "technique": "Lean theorems by induction over transition lists of a hand-written protocol model + runtime refinement monitor and physical-truth oracle on the real devices",
     "translated": False,
 }
-RULE = ("a case = a machine configuration (topology std|two_src|chain [trough->launcher->{playfield|lock}, every 5th case], trough slots 3-5, balls 1-4, max_eject_attempts per device, "
+RULE = ("TWO streams. Stream 1 (unchanged): a case = a machine configuration (topology std|two_src|chain [trough->launcher->{playfield|lock}, every 5th case], trough slots 3-5, balls 1-4, max_eject_attempts per device, "
         "eject/ball-missing/idle timeouts), physical timings on the 1/16 s grid (leave, transit, fall-back, lateness, playfield "
         "switch or not), one outcome list per device (ok/stuck/fallback/late/astray) and 3-14 actions (add_ball, drain, lock "
         "shot claimed or not, release_lock, stale_release [eject event at the empty lock], request_lock [two-hop request to a non-playfield target], escape, playfield switch hit, wait, rest). non-trivial = at least one ball physically "
-        "left a device; distinct = canonical JSON of the case")
+        "left a device; distinct = canonical JSON of the case. Stream 2 (session 3, gen_ext_case, 200 quick / 1600 thorough): flavours drawn "
+        "independently, at least one active - entrance-counted lock (capacity 2, full time-out 0|500 ms, ignore window 0|250 ms, switch "
+        "hold 1-4 ticks; std or chain topology), mechanical|combo plunger (plunge outcomes ok/fallback, player-controlled and ordinary "
+        "requests, launch event, balls rolling back into the lane claimed or not, the player plunging with no request pending), confirm "
+        "switch|event on the plunger (fate of every signal ontime/late/never + spurious signals); a warm-up brings 1-3 balls into play; "
+        "environment actions happen 1/128 s after a grid instant (no coincidence with unrelated MPF timers). a held ball_eject_attempt queue event (trough or plunger, 4-40 ticks) with balls rolling "
+        "back into the plunger lane meanwhile; chain topology also with confirm switch|event towards the lock (signal comes, ball lost). "
+        "Directed cases that run on every check: manual eject during idle (clean and with the ball rolling back), a ball skipping the idle "
+        "mechanical plunger, entrance lock filled/over-filled/emptied with and without full time-out, five held-attempt interleavings, "
+        "confirm switch and event towards the lock with the ball lost and the lock released afterwards, and one witness per known finding")
 TRUSTED = ["modelled, not verified: the coroutines of mpf/devices/ball_device/*.py are tied to the ledger only by the runtime "
            "monitor (sampled schedules), not by proof; asyncio scheduling, switch debounce (switch_counter._run), timers",
            "harness/common/ballworld.py: physical-world simulator and event->transition abstraction (hand-written)",
            "Model/BallLedger.lean is hand-written; validated by the monitor on every run"]
 ASSUMPTIONS = ["one physical exit per device; balls only enter a device when a slot is free (a ball cannot rest in a device "
-               "without closing a switch)", "no jam switch, no entrance-switch counter, no mechanical eject, ball search off",
+               "without closing a switch; an entrance-counted device: without passing its entrance switch)", "no jam switch, ball search off",
+               "entrance-counted device: its ejects always succeed physically (it has no sensor that could see a ball stay or come back: "
+               "outcomes ok/late/astray only), no ball leaves it unseen, a following ball does not pass the entrance switch while it is "
+               "held or inside the configured ignore window, with entrance_switch_full_timeout the ball that fills the device rests on "
+               "the entrance switch for the full time-out (it does not arrive while an eject of the device is queued or under way - "
+               "witness: the ball is never counted); no ball enters it while MPF still waits for the confirmation of its own eject "
+               "(witness: counted_balls = capacity + 1); a shot at the device while its entrance switch is held bounces off",
+               "mechanical plunger: the player eventually plunges a ball that MPF wants ejected (weak fairness), does not plunge a device that "
+               "has reported itself broken, does not plunge again while MPF has not yet seen the previous weak plunge fail; a confirm "
+               "signal (spurious, or the late one of an earlier ball) is not generated while the plunger's current ball has come back or "
+               "while the 'ball may have skipped' wait runs for a ball that is still on its way; captures (drain, lock shot) are not "
+               "generated while a ball ejected to the playfield falls back, nor into the trough while the trough's own eject is unconfirmed "
+               "(all: an identity-less signal would be credited to the wrong eject - the same ambiguity classes as below)",
+               "session-3 stream: environment events never fall on exactly the same loop instant as an unrelated MPF timer (two "
+               "directed witnesses show what happens when they do)",
                "two sources feeding one target can double-fire (known finding D16)",
                "ambiguous physical histories are not generated: a ball falling back later than eject_timeout, a ball arriving "
                "later than ball_missing_timeout, a ball entering a device while that device's own ejected ball is under way, a "
                "playfield switch hit by another ball while a ball ejected to the playfield is falling back"]
 
 STARVED_SIG = "stuck:source-not-woken-after-incoming-ball-lost:two-sources"
+STARVED2_SIG = "stuck:source-not-woken-after-incoming-ball-lost:incoming-timeout"
 KNOWN_SIG = "fired-into-full-device:two-sources"      # D16, only for the two_src topology with a ball from the other source
 OUTCOMES = ["ok"] * 7 + ["fallback", "stuck", "late", "astray"]
 
@@ -203,6 +227,176 @@ def gen_chain_case(r):
     return {"p": p, "timing": gen_timing(r), "outcomes": oc, "ops": ops}
 
 
+def gen_ext_case(r, i):
+    """session-3 stream: devices outside the three basic topologies' code paths - an entrance-switch counted lock
+    (entrance_switch + ball_capacity, with/without entrance_switch_full_timeout and ignore window), a mechanical or
+    coil+mechanical plunger with player-controlled ejects (the player lets go whenever he likes: before, during, long after the
+    request; weak plunges that roll back), confirm_eject_type switch / event on the plunger (signal on time, late, never,
+    spurious).  Flavours are drawn independently, at least one is active."""
+    fl = {"entr": r.random() < 0.4, "mech": r.random() < 0.45, "conf": r.random() < 0.35, "hold": r.random() < 0.25}
+    if not any(fl.values()):
+        fl[r.choice(["entr", "mech", "conf", "hold"])] = True
+    topo = "chain" if ((fl["entr"] or fl["conf"]) and not fl["mech"] and r.random() < 0.35) else "std"
+    p = gen_params(r, topo)
+    oc = gen_outcomes(r, r.choice([0.0, 0.15, 0.35]))
+    timing = gen_timing(r)
+    timing["strict_capture"] = True
+    if timing["late"] == 24 * bw.GRID:
+        # lateness 1.5 s + the count delay of 0.5 s = eject_timeout 2 s: the late ball would be counted at the very instant the
+        # NEXT device's wait (skip wait of a mechanical plunger) times out - a coincidence of two MPF timers, see WITNESSES
+        timing["late"] = 20 * bw.GRID
+    if fl["entr"]:
+        p["lock_counter"] = "entrance"
+        p["lock_full_to"] = r.choice([0, 500, 500])
+        p["lock_ignore_ms"] = r.choice([0, 0, 250])
+        timing["entr_hold"] = r.choice([1, 2, 4]) * bw.GRID
+        # an entrance-counted device has no sensor that could see its ball stay or come back: only outcomes it can handle
+        oc["lock"] = [o if o in ("ok", "late", "astray") else "ok" for o in oc["lock"]]
+    if fl["mech"]:
+        p["plunger"] = r.choice(["mech", "mech", "combo"])
+        p["tries_plunger"] = r.choice([0, 0, 0, 3])
+        oc["plunge"] = [r.choice(["ok", "ok", "ok", "fallback"]) for _ in range(8)]
+        if p["plunger"] == "mech":
+            oc["plunger"] = []          # no coil: the outcome list of coil pulses is meaningless
+    if fl["conf"]:
+        p["confirm"] = r.choice(["switch", "event"])
+        oc["confirm"] = [r.choice(["ontime", "ontime", "late", "never"]) for _ in range(8)]
+        if topo == "chain":
+            # the lane-exit signal comes, the ball does not: lost on the way to the lock
+            oc["plunger"] = [("astray" if r.random() < 0.3 else o) for o in oc["plunger"]]
+    if fl["hold"]:
+        # the trough's (sometimes the plunger's) ball_eject_attempt queue event is held for a while
+        p["hold_attempt"] = {r.choice(["trough", "trough", "plunger"]): r.choice([4, 8, 16, 40])}
+    ops = []
+    if r.random() < 0.75:
+        # warm-up: one to three balls are brought into play, so that lock shots, roll-backs into the plunger lane and
+        # playfield hits have a ball to work with
+        for _ in range(r.randint(1, min(3, p["balls"]))):
+            ops.append(["add_ball_pc"] if fl["mech"] and r.random() < 0.7 else ["add_ball"])
+            ops.append(["wait", r.choice([8, 24, 40, 64])])
+            if fl["mech"]:
+                ops.append(["plunge"])
+                ops.append(["wait", r.choice([1, 8, 16, 40])])
+        if r.random() < 0.5:
+            ops.append(["rest"])
+    for _ in range(r.randint(4, 14)):
+        k = r.random()
+        if fl["mech"] and r.random() < 0.08:
+            # a ball rolls back into the plunger lane and is held there (claimed); the player plunges it with no request pending
+            ops += [["pf_to_plunger", True], ["wait", r.choice([16, 24, 40])], ["plunge"], ["wait", r.choice([8, 24, 40, 64])]]
+            continue
+        if k < 0.12:
+            ops.append(["add_ball_pc"] if fl["mech"] and r.random() < 0.7 else ["add_ball"])
+        elif k < 0.30 and fl["mech"]:
+            ops.append(["plunge"] if r.random() < 0.8 or p["plunger"] != "combo" else ["launch"])
+        elif k < 0.36 and (fl["mech"] or fl["hold"]):
+            ops.append(["pf_to_plunger", r.random() < 0.6])
+        elif k < 0.30 and fl["hold"]:
+            # a request, and while its eject attempt is being held a ball rolls back into the plunger lane
+            ops += [["add_ball"], ["wait", r.choice([1, 2, 4, 8])], ["pf_to_plunger", r.random() < 0.5]]
+        elif k < 0.30 and fl["entr"]:
+            ops.append(["lock", r.random() < 0.7])
+        elif k < 0.38 and fl["entr"]:
+            ops.append(["request_lock"] if topo == "chain" else ["release_lock"])
+        elif k < 0.44 and fl["conf"]:
+            ops.append(["spurious_confirm"])
+        elif k < 0.54:
+            ops.append(["drain"])
+        elif k < 0.62:
+            ops.append(["lock", r.random() < 0.6])
+        elif k < 0.68:
+            ops.append(["release_lock"])
+        elif k < 0.72:
+            ops.append(["pf_hit"])
+        elif k < 0.92:
+            ops.append(["wait", r.choice([1, 2, 4, 8, 9, 16, 17, 32, 33, 40, 64, 80, 160])])
+        else:
+            ops.append(["rest"])
+    return {"p": p, "timing": timing, "outcomes": oc, "ops": ops, "env_offset": True}
+
+
+def manual_idle_case(weak):
+    """directed history of C05's 'manual eject with no request': a ball rests, claimed, in the idle mechanical plunger lane;
+    the player plunges it (weak = it rolls back after the count has settled, then he plunges again); the ball drains and a new
+    ball is requested.  Must pass on correct code: the ball is adopted (claim moves to the playfield, nothing left behind in
+    the plunger), a ball that comes back is ejected like any other, and the later request is served from the trough."""
+    g = bw.GRID
+    return {"p": {"topo": "std", "slots": 3, "balls": 2, "tries_trough": 3, "tries_plunger": 0, "tries_lock": 3,
+                  "eject_to": 2000, "missing_to": 4000, "idle_to": 2000, "plunger": "mech"},
+            "timing": {"leave": g, "transit": 4 * g, "fallback": 12 * g, "late": 8 * g, "pf_switch": True},
+            "outcomes": {"plunge": ["ok", "fallback", "ok"] if weak else ["ok", "ok", "ok"]},
+            "ops": [["add_ball_pc"], ["wait", 40], ["plunge"], ["rest"], ["pf_to_plunger", True], ["rest"], ["plunge"], ["rest"],
+                    ["drain"], ["rest"], ["add_ball_pc"], ["rest"]]}
+
+
+def entrance_case(full_to):
+    """directed history of the entrance-counted lock: two lock shots fill it (with entrance_switch_full_timeout the second
+    ball comes to rest on the entrance switch), a third shot is impossible, both balls are released one after the other"""
+    g = bw.GRID
+    return {"p": {"topo": "std", "slots": 4, "balls": 3, "tries_trough": 3, "tries_plunger": 3, "tries_lock": 3,
+                  "eject_to": 2000, "missing_to": 4000, "idle_to": 2000, "lock_counter": "entrance", "lock_full_to": full_to},
+            "timing": {"leave": g, "transit": 4 * g, "fallback": 6 * g, "late": 8 * g, "pf_switch": True, "entr_hold": g},
+            "outcomes": {},
+            "ops": [["add_ball"], ["add_ball"], ["add_ball"], ["rest"], ["lock", True], ["wait", 4], ["lock", True], ["rest"],
+                    ["lock", True], ["rest"], ["release_lock"], ["wait", 8], ["release_lock"], ["rest"], ["drain"], ["rest"]]}
+
+
+def entrance_race_case(gap):
+    """directed history of the entrance-counted lock with entrance_switch_full_timeout (found by the session-3 stream, shrunk):
+    the lock holds one ball and is asked to release it; `gap` ticks later - the release is under way - the ball that fills the
+    lock rolls in and comes to rest on the entrance switch, until the released ball has left and it rolls down: the switch opens
+    after less than the full time-out.  By design such a short hit is a bounce; the ball is in the lock and is not counted."""
+    g = bw.GRID
+    return {"p": {"topo": "std", "slots": 4, "balls": 4, "tries_trough": 2, "tries_plunger": 0, "tries_lock": 3, "eject_to": 2000,
+                  "missing_to": 4000, "idle_to": 2000, "lock_counter": "entrance", "lock_full_to": 500, "lock_ignore_ms": 250},
+            "timing": {"leave": g, "transit": 2 * g, "fallback": 24 * g, "late": 2 * g, "pf_switch": True, "entr_hold": 4 * g,
+                       "ambiguous": True},
+            "outcomes": {}, "as_sig": "count-low:entrance-ball-rested-shorter-than-full-timeout",
+            "ops": [["add_ball"], ["add_ball"], ["wait", 64], ["lock", True], ["wait", 80], ["add_ball"], ["release_lock"]] +
+                   ([["wait", gap]] if gap else []) + [["lock", True], ["rest"], ["release_lock"], ["rest"]]}
+
+
+def held_attempt_case(hold, gap, claimed):
+    """directed history of 'something holds the ball_eject_attempt queue event': a ball is in play; another is requested; the
+    trough's eject attempt is held for `hold` ticks; `gap` ticks into the hold the first ball rolls back into the capacity-1
+    plunger lane (held there or not).  The trough must look at the plunger AFTER the hold: no ball may be fired at the occupied
+    plunger."""
+    g = bw.GRID
+    return {"p": {"topo": "std", "slots": 3, "balls": 2, "tries_trough": 3, "tries_plunger": 3, "tries_lock": 3, "eject_to": 2000,
+                  "missing_to": 4000, "idle_to": 2000, "hold_attempt": {"trough": hold}},
+            "timing": {"leave": g, "transit": 4 * g, "fallback": 6 * g, "late": 8 * g, "pf_switch": True, "strict_capture": True},
+            "outcomes": {}, "env_offset": True,
+            "ops": [["add_ball"], ["rest"], ["add_ball"], ["wait", gap], ["pf_to_plunger", claimed], ["rest"], ["drain"], ["rest"]]}
+
+
+def ext_confirm_lost_case(kind):
+    """directed history of confirm_eject_type switch|event towards a DEVICE: the only ball is requested for the lock (capacity 2);
+    the plunger's lane-exit signal confirms the eject but the ball never reaches the lock (it ends up on the playfield), so the
+    lock's incoming ball times out and no replacement exists; later the ball is shot into the lock from the playfield and held;
+    then the lock, not full, is asked to release it: it must eject it (and not wait for an incoming ball that is long gone)."""
+    g = bw.GRID
+    return {"p": {"topo": "chain", "slots": 3, "balls": 1, "tries_trough": 3, "tries_plunger": 3, "tries_lock": 3, "eject_to": 2000,
+                  "missing_to": 4000, "idle_to": 2000, "confirm": kind},
+            "timing": {"leave": g, "transit": 4 * g, "fallback": 6 * g, "late": 8 * g, "pf_switch": True, "strict_capture": True},
+            "outcomes": {"plunger": ["astray"], "confirm": ["ontime", "ontime", "ontime"]}, "env_offset": True,
+            "ops": [["request_lock"], ["rest"], ["lock", True], ["rest"], ["release_lock"], ["rest"]]}
+
+
+def skip_idle_case():
+    """directed history of the 'ball may have skipped the mechanical device' logic with the device IDLE (found by the session-3
+    stream, shrunk): a ball rolls back into the mechanical plunger lane and is held there (claimed) at the moment a new ball is
+    requested; the plunger uses the held ball for the request, so the trough's ball is to replace it; that ball goes astray
+    (ends up on the playfield) and MPF concludes after the time-outs that it has passed the plunger: its claim must move to the
+    playfield with it.  Must pass on correct code."""
+    return {"p": {"topo": "chain", "slots": 3, "balls": 3, "tries_trough": 3, "tries_plunger": 0, "tries_lock": 3, "eject_to": 3000,
+                  "missing_to": 5000, "idle_to": 2000, "lock_counter": "entrance", "lock_full_to": 500, "lock_ignore_ms": 0,
+                  "plunger": "mech"},
+            "timing": {"leave": 0.125, "transit": 0.5, "fallback": 0.75, "late": 0.125, "pf_switch": True, "strict_capture": True,
+                       "entr_hold": 0.125},
+            "outcomes": {"trough": ["ok", "ok", "astray"], "plunger": [], "lock": [], "plunge": ["fallback", "ok", "fallback", "ok"]},
+            "ops": [["add_ball_pc"], ["add_ball_pc"], ["rest"], ["pf_to_plunger", True], ["add_ball"]], "env_offset": True}
+
+
 def gen_case(r, i, heavy=False):
     case = _gen_case(r, i, heavy)
     if case["p"]["topo"] == "std":
@@ -256,6 +450,20 @@ def starved_case():
             "ops": [["add_ball"], ["add_ball"], ["wait", 64], ["lock", False]]}
 
 
+def starved_chain_case():
+    """witness of the same finding by the session-3 route (found by the C05 stream, seed 1, shrunk): chain topology, the plunger
+    confirms its ejects by an event; the first ball requested for the lock goes astray after the lane-exit signal (registered as
+    incoming at the lock until its time-out), the second request's ball waits in the launcher for room; the incoming ball times
+    out, the room is free, the launcher is never woken"""
+    return {"p": {"topo": "chain", "slots": 4, "balls": 3, "tries_trough": 3, "tries_plunger": 2, "tries_lock": 2, "eject_to": 2000,
+                  "missing_to": 5000, "idle_to": 2000, "confirm": "event", "lock_counter": "entrance", "lock_full_to": 500,
+                  "lock_ignore_ms": 250},
+            "timing": {"leave": 0.0625, "transit": 0.75, "fallback": 0.375, "late": 0.5, "pf_switch": True, "strict_capture": True,
+                       "entr_hold": 0.125},
+            "outcomes": {"plunger": ["ok", "astray", "astray"], "confirm": ["never", "ontime", "late", "ontime"]}, "env_offset": True,
+            "ops": [["add_ball"], ["wait", 80], ["request_lock"], ["request_lock"], ["lock", True]]}
+
+
 WP = {"topo": "std", "slots": 3, "balls": 2, "tries_trough": 3, "tries_plunger": 3, "tries_lock": 3, "eject_to": 2000,
       "missing_to": 4000, "idle_to": 2000}
 G = bw.GRID
@@ -290,7 +498,40 @@ WITNESSES = [
     ("count-negative:balls-property-after-eject-success",
      {"p": WP, "timing": {"leave": G, "transit": 4 * G, "fallback": 6 * G, "late": 8 * G, "pf_switch": True},
       "outcomes": {}, "ops": [["add_ball"], ["rest"]], "report_transient": True}),
+    # an entrance-switch counted lock (capacity 2, full) releases a ball to the playfield (no playfield switch: the eject stays
+    # unconfirmed until eject_timeout); one second later another ball rolls in: counted_balls = 3
+    ("count-above-capacity:counted_balls-entry-during-unconfirmed-eject",
+     {"p": dict(WP, slots=4, balls=3, lock_counter="entrance", lock_full_to=0),
+      "timing": {"leave": G, "transit": 4 * G, "fallback": 6 * G, "late": 8 * G, "pf_switch": False, "entr_hold": G,
+                 "ambiguous": True},
+      "outcomes": {}, "ops": [["add_ball"], ["add_ball"], ["add_ball"], ["rest"], ["lock", True], ["wait", 16], ["lock", True],
+                              ["rest"], ["release_lock"], ["wait", 16], ["lock", True], ["rest"]]}),
+    # two same-instant races of the "ball may have skipped the mechanical device" logic (found by the session-3 stream when
+    # environment events still fell on MPF's grid instants; every oracle failure of these two histories is reported under the
+    # witness' signature, the raw clauses are in the detail):
+    # (1) the plunged ball passes the lane faster than the plunger's count delay, drains, and is counted in the trough at the
+    # very instant the plunger's skip wait times out: the plunger reports eject success (playfield +1) AND the trough takes
+    # the drained ball for its own ball returned (eject failed, retried) - one ball credited twice
+    ("race:drain-counted-at-skip-timeout-instant",
+     {"p": dict(WP, tries_trough=0, tries_plunger=0, eject_to=3000, missing_to=5000, plunger="mech"),
+      "timing": {"leave": 2 * G, "transit": 2 * G, "fallback": 12 * G, "late": 2 * G, "pf_switch": True, "ambiguous": True},
+      "outcomes": {}, "as_sig": "race:drain-counted-at-skip-timeout-instant",
+      "ops": [["add_ball_pc"], ["wait", 8], ["plunge"], ["wait", 40], ["wait", 40], ["wait", 2], ["drain"]]}),
+    # (2) a weakly plunged ball settles back in the plunger and is counted there at the very instant the trough's confirm
+    # window for that ball closes: Util.first cancels wait_for_ball() half way (trough's eject confirmed, ball never entered
+    # in the plunger's books), the already arrived incoming ball is registered as "may skip" afterwards; BallDevice.balls = -1
+    # and later a double remove raises (AttributeError: OutgoingBallsHandler has no attribute unit_test)
+    ("race:ball-counted-at-source-eject-timeout-instant",
+     {"p": dict(WP, slots=5, balls=3, tries_trough=0, missing_to=5000, plunger="combo", confirm="event"),
+      "timing": {"leave": 2 * G, "transit": 20 * G, "fallback": 2 * G, "late": 8 * G, "pf_switch": True, "ambiguous": True},
+      "outcomes": {"plunge": ["ok", "fallback", "ok"], "confirm": ["ontime", "ontime", "late"]},
+      "as_sig": "race:ball-counted-at-source-eject-timeout-instant",
+      "ops": [["add_ball_pc"], ["wait", 40], ["plunge"], ["wait", 8], ["add_ball_pc"], ["wait", 24], ["plunge"], ["wait", 8]]}),
+    # an entrance-counted lock with entrance_switch_full_timeout is releasing a ball when the ball that fills it rolls in: it
+    # rests on the entrance switch only until the released ball has left (shorter than the full time-out) and is never counted
+    ("count-low:entrance-ball-rested-shorter-than-full-timeout", None),
 ]
+WITNESSES[-1] = (WITNESSES[-1][0], entrance_race_case(0))
 WITNESS_SIGS = tuple(w[0] for w in WITNESSES)
 
 
@@ -304,11 +545,13 @@ def shrink(case, sig):
         return case
 
 
-LISTED = (KNOWN_SIG, STARVED_SIG) + WITNESS_SIGS      # classes with a directed witness: never shrunk, never stop the run
+LISTED = (KNOWN_SIG, STARVED_SIG, STARVED2_SIG) + WITNESS_SIGS      # classes with a directed witness: never shrunk, never stop the run
 
 
 def eval_case(ctx, case, model, focus):
     """focus: 'C04' (counts) | 'C05' (progress): which oracle failures belong to this property"""
+    if case.get("as_sig"):
+        model = None                # witness of a known race: the ledger is not expected to follow it
     res = bw.run_case(case, model, focus)
     ctx.evaluated(case, res.nontrivial)
     for k, v in res.hist.items():
@@ -319,7 +562,14 @@ def eval_case(ctx, case, model, focus):
     if model is not None:
         # one comparison per case: the whole observed history is an enabled ledger run with equal counts at every step
         ctx.compare(dict(case, what="monitor"), "refines" if res.mismatch is None else res.mismatch, "refines")
-    for sig, detail in res.failures:
+    failures = res.failures
+    if case.get("as_sig") and failures:
+        # a directed witness of a known race: whatever oracle clauses fail, it is this one finding
+        failures = [(case["as_sig"], {"raw_signatures": [f[0] for f in failures], "first": failures[0][1]})]
+    for sig, detail in failures:
+        if case.get("as_sig"):
+            ctx.fail(sig, case, detail)
+            continue
         mine = bw.is_progress_sig(sig)
         if (focus == "C05") != mine and not sig.startswith("crash:"):
             ctx.count("other_property_failure")
@@ -351,10 +601,36 @@ def run(ctx, focus="C04", ident=ID):
                 ctx.notes.setdefault("witnesses", {})[sig] = [f[0] for f in res.failures]
         else:
             eval_case(ctx, starved_case(), model, focus)
+            res = eval_case(ctx, starved_chain_case(), model, focus)
+            ctx.notes["starved_chain_case"] = [f[0] for f in res.failures]
+        for weak in (False, True):
+            res = eval_case(ctx, manual_idle_case(weak), model, focus)
+            ctx.notes.setdefault("manual_idle_cases", {})["weak" if weak else "clean"] = {
+                "failures": [f[0] for f in res.failures], "manualLeft": res.hist.get("op_manualLeft", 0),
+                "manualReturn": res.hist.get("op_manualReturn", 0)}
+        for full_to in (0, 500):
+            res = eval_case(ctx, entrance_case(full_to), model, focus)
+            ctx.notes.setdefault("entrance_cases", {})[str(full_to)] = {"failures": [f[0] for f in res.failures],
+                                                                        "ec_ops": res.hist.get("op_ec", 0)}
+        bad = 0
+        for hold, gap, claimed in ((16, 4, True), (16, 4, False), (40, 12, True), (8, 1, False), (8, 7, True)):
+            bad += len(eval_case(ctx, held_attempt_case(hold, gap, claimed), model, focus).failures)
+        ctx.notes["held_attempt_cases"] = {"cases": 5, "with_failures": bad}
+        for kind in ("switch", "event"):
+            res = eval_case(ctx, ext_confirm_lost_case(kind), model, focus)
+            ctx.notes.setdefault("ext_confirm_lost_cases", {})[kind] = {
+                "failures": [f[0] for f in res.failures], "extConfirm": res.hist.get("op_extConfirm", 0),
+                "incomingTimeout": res.hist.get("op_incomingTimeout", 0)}
+        res = eval_case(ctx, skip_idle_case(), model, focus)
+        ctx.notes["skip_idle_case"] = {"failures": [f[0] for f in res.failures], "skipConfirmIdle": res.hist.get("op_skipConfirmIdle", 0)}
         for i in range(ctx.n(600 if focus == "C04" else 480, 6000)):
             eval_case(ctx, gen_case(ctx.rng("case", i), i, heavy=(focus == "C05")), model, focus)
             if len([f for f in ctx.failures if f["signature"] not in LISTED]) >= 3:
                 break                       # a violation is established; the first (shrunk) one is reported
+        for i in range(ctx.n(200, 1600)):
+            if len([f for f in ctx.failures if f["signature"] not in LISTED]) >= 3:
+                break
+            eval_case(ctx, gen_ext_case(ctx.rng("ext", i), i), model, focus)
     finally:
         if model is not None:
             model.close()
